@@ -130,6 +130,13 @@ Definition precip (p : pbox) : res pbox :=
 Definition pnum (f : N -> N -> N) (p : pbox) (c : N) : res pbox :=
   mk_staircase_lists (nsort (map (fun x => f x c) (fst p))) (nsort (map (fun x => f x c) (snd p))).
 Definition punary (f : N -> N) (p : pbox) : res pbox := mk_staircase (map f (fst p)) (map f (snd p)).
+(* Staircase.pow with a real exponent c: a negative exponent on a support containing zero raises (0 ** c is infinite); a support that
+   straddles zero goes through interval powers and stacking (route0: that route is not modelled here, an arbitrary function); otherwise
+   the number template with x ** c (powf) *)
+Definition ppow (powf : N -> N -> N) (route0 : pbox -> N -> res pbox) (p : pbox) (c : N) : res pbox :=
+  if (c <? nzero) && ((nth0 (fst p) 0 <=? nzero) && (nzero <=? lastn (snd p))) then Raise ZeroDivision
+  else if (minl (fst p) <? nzero) && (nzero <? maxl (snd p)) then route0 p c
+  else pnum powf p c.
 
 (* env / imp *)
 Definition penv (p q : pbox) : res pbox :=
